@@ -220,7 +220,7 @@ def objects_created_after_a_load_are_new_objects(ctx, fresh, gone, later):
                 kept.pop(int(b.p.serialNum))
             new = charge_fresh(r2, cs, old)
             newSerials = serials(new)
-            if ctx.canary and (charged, discharged, newProcess) == (fresh[-1], gone[-1], True):
+            if ctx.canary and (charged, discharged, newProcess) == (fresh[-1], gone[0], True):
                 loaded = loaded + newSerials[:1]
             ctx.check_eq("objects created after the load have serial numbers that no loaded object has (they are new "
                          "objects: histories are matched by serial number)",
